@@ -177,6 +177,13 @@ func runChild(c *hlib.Ctx, group string) {
 
 var progressFile = os.Getenv("C12_PROGRESS")
 
+// mark records the case about to be executed (see run).
+func mark(op string) {
+	if progressFile != "" {
+		os.WriteFile(progressFile, []byte(op), 0o644)
+	}
+}
+
 // emitCase records the case as "in progress", runs it under panic capture + watchdog and emits it.
 func emitCase(c *hlib.Ctx, op, site string, f func() string) {
 	if progressFile != "" {
